@@ -9,6 +9,7 @@ package simvfs
 import (
 	"os"
 	"path/filepath"
+	"strings"
 	"sync"
 
 	"github.com/ncruces/go-sqlite3/vfs"
@@ -245,6 +246,17 @@ func Rebuild(log []Op, k int, torn int, fromDir, dir string) error {
 			op.Data = op.Data[:torn]
 		}
 		apply(op)
+	}
+	// a process that is killed leaves the wal-index file (-shm) behind; it is not written through the VFS file
+	// interface, so it is not in the log. Its content is rebuilt by the first connection that opens the database
+	// (nobody else holds it), which is why zeros do: what matters is that the file is there, as after a real kill.
+	for rel := range files {
+		if strings.HasSuffix(rel, "-wal") {
+			shm := strings.TrimSuffix(rel, "-wal") + "-shm"
+			if _, ok := files[shm]; !ok {
+				files[shm] = make([]byte, 32768)
+			}
+		}
 	}
 	for rel, b := range files {
 		p := filepath.Join(dir, rel)
